@@ -150,4 +150,44 @@ def killBusy (P : Params) (cleanupMs : Nat) : Outcome :=
   if P.grpcStopImmediate ∧ cleanupMs < P.graceMs then ⟨true, false, true, P.waitsForGoroutines, true, P.graceMs⟩
   else ⟨true, P.forceAfterGrace, P.forceAfterGrace, P.forceAfterGrace && P.waitsForGoroutines, false, P.graceMs⟩
 
+/-! ### CleanupClients -/
+
+/-- facts about the process-wide list of managed clients -/
+structure CleanupParams where
+  /-- `NewClient` appends every client configured with `Managed` to `managedClients` (under its lock), at construction -/
+  registersAtConstruction : Bool
+  /-- `CleanupClients` ranges over `managedClients` and starts, for EVERY element, a goroutine that calls that element's
+  `Kill()` (with `wg.Add(1)` before it and `wg.Done()` after the Kill) -/
+  killsEach : Bool
+  /-- `wg.Wait()` follows the loop: `CleanupClients` returns only when every one of those `Kill`s has returned -/
+  waitsAll : Bool
+  deriving DecidableEq, Repr
+
+def CleanupParams.Good (C : CleanupParams) : Prop :=
+  C.registersAtConstruction = true ∧ C.killsEach = true ∧ C.waitsAll = true
+instance (C : CleanupParams) : Decidable C.Good := by unfold CleanupParams.Good; exact inferInstance
+
+/-- the situation of one managed client when `CleanupClients` is called -/
+structure Managed where
+  proto : Proto
+  beh : Beh
+  replyLost : Bool
+  hasAddr : Bool
+  clientOk : Bool
+  deriving DecidableEq, Repr
+
+/-- what has become of one managed client's plugin when `CleanupClients` RETURNS -/
+def cleanupOne (P : Params) (C : CleanupParams) (m : Managed) : Outcome :=
+  if C.registersAtConstruction && C.killsEach then
+    let o := kill P m.proto m.beh m.replyLost m.hasAddr m.clientOk
+    -- without the final wait nothing is known about a Kill that is still running when CleanupClients returns
+    if C.waitsAll then o else { o with procDead := false, exitedFlag := false }
+  else ⟨true, false, false, false, false, 0⟩
+
+def cleanupAll (P : Params) (C : CleanupParams) (ms : List Managed) : List Outcome := ms.map (cleanupOne P C)
+
+/-- the Kills run in parallel: `CleanupClients` takes as long as the slowest of them -/
+def cleanupBoundMs (P : Params) (C : CleanupParams) (ms : List Managed) : Nat :=
+  (cleanupAll P C ms).foldl (fun acc o => max acc o.boundMs) 0
+
 end GoPlugin.Kill
